@@ -18,6 +18,7 @@ import Nitime.Model.Num
 import Nitime.Model.Proto
 import Nitime.Model.C15Types
 import Nitime.Generated.SeriesCalls
+import Nitime.Model.FiltFilt
 
 namespace Nitime.C18
 open Nitime
@@ -201,6 +202,12 @@ def handle (args : List String) : String :=
     | some fs, some lb, some ub, some x =>
       "ok " ++ showFloatList (filteredFourier fs lb ub x)
     | _, _, _, _ => "bad-args"
+  | ["ffmodel", b, a, zi, padlen, x] =>
+    -- FilterAnalyzer.filtfilt(b, a) on one channel: DC restoration around the MODEL of scipy.signal.filtfilt
+    match parseFloatList? b, parseFloatList? a, parseFloatList? zi, padlen.toNat?, parseFloatList? x with
+    | some b, some a, some zi, some p, some x =>
+      "ok " ++ showFloatList (filtfiltWrapper (FiltFilt.filtfilt b a zi p) x)
+    | _, _, _, _, _ => "bad-args"
   | ["restoredc", x, y] =>
     match parseFloatList? x, parseFloatList? y with
     | some x, some y => "ok " ++ showFloatList (restoreDC (mean x) y)
